@@ -31,6 +31,7 @@ func init() {
 func runC15(c *an.Ctx) {
 	// ---- R1 capture bounds
 	nLoops := 0
+	loopDone := map[*ssa.BasicBlock]bool{}
 	bounds := map[string][]string{}
 	for _, fn := range c.P.ModFuncs {
 		if relPkg(fn) != "internal/operators" {
@@ -47,6 +48,34 @@ func runC15(c *an.Ctx) {
 			}
 			nLoops++
 			c.FuncsAnalysed[fn] = true
+			// every iteration stores its capture: no path through the loop body reaches the next iteration without a
+			// CaptureField call (a group that did not participate is stored as "", otherwise TX.n keeps the text of
+			// an earlier match)
+			if !loopDone[l.Header] {
+				loopDone[l.Header] = true
+				var body *ssa.BasicBlock
+				for _, sx := range l.Header.Succs {
+					if l.Blocks[sx] && sx != l.Header {
+						body = sx
+					}
+				}
+				if body != nil {
+					w := an.FindPath(an.PathQuery{Fn: fn, StartBlock: body,
+						Stop: func(x ssa.Instruction) bool {
+							xc := an.CallOf(x)
+							return xc != nil && xc.IsInvoke() && xc.Method.Name() == "CaptureField"
+						},
+						Target:    func(x ssa.Instruction) bool { return x.Block() == l.Header && x == l.Header.Instrs[0] },
+						PruneEdge: func(bb *ssa.BasicBlock, si int) bool { return !l.Blocks[bb.Succs[si]] }})
+					if why, ok := c15CaptureFilterAllow[an.RelName(fn)]; ok && w != nil {
+						c.Note("R1", "capture loop in "+an.RelName(fn)+" stores a value for every index it visits", in.Pos(), "filtering capture loop: "+why)
+					} else if w != nil {
+						c.Bad("R1", "capture loop in "+an.RelName(fn)+" stores a value for every index it visits", in.Pos(), "an iteration of the capture loop can finish without calling CaptureField: TX.n then keeps what an earlier value or rule captured (stale capture) instead of the text of this match", c.P.TrailString(w)...)
+					} else {
+						c.Ok("R1", "capture loop in "+an.RelName(fn)+" stores a value for every index it visits", in.Pos(), "every path through the body passes CaptureField")
+					}
+				}
+			}
 			idx := an.Expr(cc.Args[0])
 			// constants the index (or index+1) is compared with anywhere in the function
 			var ks []string
@@ -304,3 +333,8 @@ func everyFeasiblePathHas(fn *ssa.Function, at ssa.Instruction, need an.Atom) bo
 }
 
 var _ = fmt.Sprint
+
+// c15CaptureFilterAllow: capture loops that store only some of the candidates they visit, by design.
+var c15CaptureFilterAllow = map[string]string{
+	"internal/operators.(*validateNid).Evaluate": "the loop visits regex candidates and captures only those that pass the checksum; a candidate that fails is not a match and has no capture",
+}
